@@ -201,7 +201,7 @@ def make_case(rng):
         acts = ["acts", "1", "set", str(bb)] + et
     elif ctx == "appendc":
         stmt = f'"x"; st += [{src_e}];'
-        acts = ["acts", "1", "appendc", "2", str(sidx)] + et
+        acts = ["acts", "1", "appendc", "2", str(sidx), "0"] + et
     elif ctx == "condact":
         stmt = f'"x"; if {src_e} {{ res = 11; }} else {{ res = 22; }}'
         acts = ["acts", "1", "cond", "2", "cexpr"] + et + ["acts", "1", "set", str(res), "lit", "11", "celse", "acts", "1", "set", str(res), "lit", "22"]
